@@ -155,14 +155,15 @@ class Frame:
 CENTRES = np.array([[0.05, 0.0], [0.15, 0.0], [2.5, 0.0]])
 
 
-def make_input(fault, pos):
-    """12 records in 3 chunks of 4; the fault is placed in chunk `pos`"""
+def make_input(fault, pos, n=None, chunk=None, row=1, nf=None):
+    """n records in chunks of `chunk` (default: 12 in 3 chunks of 4); the fault is placed in row `row` of chunk `pos`"""
+    N, CHUNK = n or globals()["N"], chunk or globals()["CHUNK"]
     ra = np.array([0.04 + 0.001 * i if i % 2 == 0 else 0.16 - 0.001 * i for i in range(N)])
     ra[1::4] = 2.5  # every centre attracts objects ...
     if fault == "empty_centre":  # ... except the one at position `pos` of the centre list
         ra[np.argmin(np.abs(ra[:, None] - CENTRES[None, :, 0]), axis=1) == pos] = CENTRES[(pos + 1) % 3, 0] + 0.002
     cols = {"ra": ra, "dec": np.zeros(N), "w": 1.0 + np.arange(N), "p": (np.arange(N) % 3).astype(np.int64)}
-    row = pos * CHUNK + 1
+    row = min(pos * CHUNK + row, N - 1)
     kw = dict(ra_name="ra", dec_name="dec", weight_name="w", degrees=False, chunksize=CHUNK)
     if fault in ("patch_id_out_of_range", "patch_id_wraps"):
         kw["patch_name"] = "p"
@@ -172,7 +173,7 @@ def make_input(fault, pos):
     else:
         kw["patch_centers"] = AngularCoordinates(CENTRES.copy())
     if fault == "nonfinite":
-        cols["w"][row] = (np.nan, np.inf, -np.inf)[pos]
+        cols["w"][row] = (np.nan, np.inf, -np.inf)[(pos if nf is None else nf) % 3]
     if fault == "missing_column":
         kw["weight_name"] = "does_not_exist"
     if fault == "unequal_lengths":
@@ -208,18 +209,25 @@ class Faults(Harness):
     modules = MODS
     xval = False
 
-    def __init__(self, wrong=None):
-        self.wrong = wrong
-        self.name = "faults" + (".twin-" + wrong if wrong else "")
-        self.bounds = ("12 records in 3 chunks; fault kind (%d) x chunk position / position of the empty centre (first/middle/last) x workers (1 = sequential, 2, 3) x "
-                       "order in which pool workers deliver their part -- every combination chosen by the engine") % len(FAULTS)
+    def __init__(self, wrong=None, n=N, chunk=CHUNK, maxworkers=3, rows=(1,)):
+        self.wrong, self.n, self.chunk, self.maxworkers, self.rows = wrong, n, chunk, maxworkers, tuple(rows)
+        self.nchunks = -(-n // chunk)
+        self.name = "faults" + ("" if (n, chunk) == (N, CHUNK) else ".n%dc%d" % (n, chunk)) + (".twin-" + wrong if wrong else "")
+        self.bounds = ("%d records in %d chunks of <= %d; fault kind (%d) x chunk position (every chunk) / position of the empty centre "
+                       "(first/middle/last) x row within the chunk %s x non-finite value (nan/+inf/-inf) x workers (1 = sequential, 2..%d) x "
+                       "order in which pool workers deliver their part -- every combination chosen by the engine") % (
+            n, self.nchunks, chunk, len(FAULTS), list(self.rows), maxworkers)
         self.must_fail = wrong is not None
 
     def make_inputs(self, eng):
-        d = {"fault": eng.choose(len(FAULTS), "fault"), "workers": 1 + eng.choose(3, "workers")}
+        d = {"fault": eng.choose(len(FAULTS), "fault"), "workers": 1 + eng.choose(self.maxworkers, "workers")}
         f = FAULTS[d["fault"]]
-        d["pos"] = eng.choose(3, "chunk_position") if f in ("nonfinite", "patch_id_out_of_range", "patch_id_wraps", "empty_centre") else 0
+        d["pos"] = (eng.choose(3 if f == "empty_centre" else self.nchunks, "chunk_position")
+                    if f in ("nonfinite", "patch_id_out_of_range", "patch_id_wraps", "empty_centre") else 0)
+        d["row"] = self.rows[eng.choose(len(self.rows), "row_in_chunk")] if f in ("nonfinite", "patch_id_out_of_range", "patch_id_wraps") else 1
+        d["nf"] = eng.choose(3, "nonfinite_value") if f == "nonfinite" and len(self.rows) > 1 else d["pos"]
         d["order"] = eng.choose(2, "pool_delivery_order") if d["workers"] > 1 else 0
+        d["n"], d["chunk"] = self.n, self.chunk
         return d
 
     def concrete_inputs(self, m, inp):
@@ -227,11 +235,11 @@ class Faults(Harness):
 
     def body(self, inp):
         if Engine.cur is None:
-            return replay_subprocess(dict(kind="fault", **{k: inp[k] for k in ("fault", "workers", "pos", "order")}))
+            return replay_subprocess(dict(kind="fault", **{k: inp[k] for k in ("fault", "workers", "pos", "order", "n", "chunk", "row", "nf")}))
         fault = FAULTS[inp["fault"]]
         if fault == "unequal_lengths":
             return [Check("covered_by_C02_create_rejects", cond=True)]
-        cols, kw = make_input(fault, inp["pos"])
+        cols, kw = make_input(fault, inp["pos"], inp["n"], inp["chunk"], inp["row"], inp["nf"])
         fs = fsmodel.FS()
         outcome = run_creation(fs, cols, kw, inp["workers"], inp["order"], overwrite=False)
         return judge(fs, outcome, fault, cols, kw, prior="absent", overwrite=False, wrong=self.wrong)
@@ -396,7 +404,7 @@ def real_run(spec):
         path = tmp + "/cat"
         if spec["kind"] == "fault":
             fault, prior, overwrite = FAULTS[spec["fault"]], "absent", False
-            cols, kw = make_input(fault, spec["pos"])
+            cols, kw = make_input(fault, spec["pos"], spec.get("n"), spec.get("chunk"), spec.get("row", 1), spec.get("nf"))
         else:
             prior, overwrite = PRIORS[spec["prior"]], bool(spec["overwrite"])
             fault = "nonfinite" if spec["late_fault"] else "none"
@@ -448,7 +456,10 @@ def real_run(spec):
 
 
 def harnesses(tier):
-    return [Faults(), Existing(), Faults(wrong="strict")]
+    hs = [Faults(), Existing()]
+    if tier == "thorough":
+        hs += [Faults(n=23, chunk=5, maxworkers=4, rows=(0, 4)), Faults(n=9, chunk=1, maxworkers=3, rows=(0,)), Faults(n=7, chunk=16, maxworkers=3, rows=(0, 6))]
+    return hs + [Faults(wrong="strict")]
 
 
 if __name__ == "__main__":
